@@ -407,6 +407,104 @@ def w4(rep, f_foam, f_lib):
                       "wider than 32 bits cannot be stored otherwise")
 
 
+def w4b(rep, f_foam):
+    """The portable re-expression of a wide SInt denotes the same value: shape of foamSIntReduce."""
+    fn = f_foam.func("foamSIntReduce")
+    where = "foam.c:%d (foamSIntReduce)" % fn["l"]
+    body = fn["body"]
+    # 1. split loop: parts[i] = number & MASK, number >>= W
+    split = None
+    for x in walk(body):
+        if x["k"] == "ForStmt":
+            ands = [b for b in walk(x["c"][3]) if b["k"] == "BinaryOperator" and b["op"] == "&"]
+            shr = [b for b in walk(x["c"][3]) if b["k"] == "CompoundAssignOperator" and b["op"] == ">>="]
+            if ands and shr:
+                split = (common.const_value(ands[0]["c"][1]), common.const_value(shr[0]["c"][1]), strip(shr[0]["c"][0]))
+    if split is None or split[0] is None or split[1] is None:
+        raise AnalysisBroken("foamSIntReduce: split loop `parts[i] = number & MASK, number >>= W` not recognised")
+    mask, width, numvar = split
+    if mask == (1 << width) - 1:
+        rep.ok("W4", "reduce:split-mask-matches-width", sample={"mask": hex(mask), "width": width})
+    else:
+        rep.violation("W4", "reduce:split-mask-matches-width", where,
+                      "chunks are cut with mask %#x but the number is shifted down by %d bits per chunk: bits are lost or duplicated" % (mask, width))
+    # 2. reconstruct loop
+    def bcalls(n, tag):
+        out = []
+        for c in calls(n, "foamNew"):
+            if len(c["c"]) >= 4 and common.enum_name(c["c"][3]) == tag:
+                out.append(c)
+        return out
+    loop = None
+    for x in walk(body):
+        if x["k"] in ("WhileStmt", "ForStmt", "DoStmt") and bcalls(x, "FOAM_BVal_SIntShiftUp"):
+            loop = x
+    if loop is None:
+        raise AnalysisBroken("foamSIntReduce: reconstruction loop (foamNew(FOAM_BCall, 3, FOAM_BVal_SIntShiftUp, ...)) not found")
+    lbody = loop["c"][-1]
+    branching = [y["k"] for y in walk(lbody) if y["k"] in ("IfStmt", "ConditionalOperator", "ContinueStmt", "BreakStmt", "GotoStmt",
+                                                           "SwitchStmt", "WhileStmt", "ForStmt", "DoStmt", "ReturnStmt")]
+    if branching:
+        raise AnalysisBroken("foamSIntReduce: the reconstruction loop body is no longer straight-line (%s): this rule only decides the "
+                             "one-ShiftUp-one-Or-per-chunk form and cannot tell whether the new form denotes the same value"
+                             % ", ".join(sorted(set(branching))))
+    sh = bcalls(lbody, "FOAM_BVal_SIntShiftUp")
+    orr = bcalls(lbody, "FOAM_BVal_SIntOr")
+    all_new = [c for c in calls(lbody, "foamNew") if common.enum_name(c["c"][1]) != "FOAM_SInt"]
+    def sint_arg(c, k):
+        a = strip(c["c"][k]) if len(c["c"]) > k else None
+        if a is not None and a["k"] == "CallExpr" and a.get("callee") == "foamNew" and len(a["c"]) == 4 \
+                and common.enum_name(a["c"][1]) == "FOAM_SInt" and common.const_value(a["c"][2]) == 1:
+            return a["c"][3]       # foamNewSInt(x) == foamNew(FOAM_SInt, 1, (AInt)(x))
+        return None
+    def is_foam(c, k):
+        a = strip(c["c"][k]) if len(c["c"]) > k else None
+        return a is not None and a["k"] == "DeclRefExpr" and a["n"] == "foam"
+    problems = []
+    if len(sh) != 1 or len(orr) != 1 or len(all_new) != 2:
+        problems.append("each iteration must build exactly one SIntShiftUp and one SIntOr node (found %d/%d of %d foamNew calls)"
+                        % (len(sh), len(orr), len(all_new)))
+    else:
+        if not (sh[0]["l"] <= orr[0]["l"] and is_foam(sh[0], 4) and is_foam(orr[0], 4)):
+            problems.append("the accumulated value must be the first operand of ShiftUp and then of Or, in that order")
+        w2 = sint_arg(sh[0], 5)
+        if w2 is None or common.const_value(w2) != width:
+            problems.append("the value is shifted up by %s per chunk but was split into %d-bit chunks"
+                            % (render(w2) if w2 is not None else "?", width))
+        ch = sint_arg(orr[0], 5)
+        chs = strip(ch) if ch is not None else None
+        if chs is None or chs["k"] != "ArraySubscriptExpr" or strip(chs["c"][0]).get("n") != "parts":
+            problems.append("the Or operand must be the next chunk parts[i]")
+        decs = [y for y in walk(loop) if y["k"] == "UnaryOperator" and y["op"] in ("--", "post--", "pre--")]
+        if len(decs) != 1:
+            problems.append("the chunk index must be decremented exactly once per iteration (found %d decrements)" % len(decs))
+    if problems:
+        rep.violation("W4", "reduce:rebuild-shape", "foam.c:%d (foamSIntReduce)" % loop["l"], "; ".join(problems) +
+                      ": the re-expressed constant would denote a different value than the 64-bit literal")
+    else:
+        rep.ok("W4", "reduce:rebuild-shape", sample={"per_chunk": "foam = ShiftUp(foam, %d); foam = Or(foam, parts[i--])" % width})
+    # 3. sign handling: negative := x < 0; number := negative ? -x : x; finally Negate iff negative
+    neg_def = num_def = neg_apply = False
+    for x in walk(body):
+        if x["k"] == "BinaryOperator" and x["op"] == "=" and strip(x["c"][0]).get("n") == "negative":
+            r = strip(x["c"][1])
+            neg_def = r is not None and r["k"] == "BinaryOperator" and r["op"] in ("<", "<=") and common.const_value(r["c"][1]) == 0   # zero is never wide, so <= is the same
+        for d in (x.get("decls", []) if x["k"] == "DeclStmt" else []):
+            r = strip(d["init"]) if d["n"] == "number" and d.get("init") is not None else None
+            if r is not None and r["k"] == "ConditionalOperator":
+                c0, a, b = strip(r["c"][0]), strip(r["c"][1]), strip(r["c"][2])
+                num_def = (c0 is not None and c0.get("n") == "negative" and a is not None and a["k"] == "UnaryOperator" and a["op"] == "-"
+                           and render(strip(a["c"][0])) == render(b))
+        if x["k"] == "IfStmt" and strip(x["c"][0]) is not None and strip(x["c"][0]).get("n") == "negative":
+            neg_apply = bool(bcalls(x["c"][1], "FOAM_BVal_SIntNegate")) and x["l"] > loop["l"]
+    if neg_def and num_def and neg_apply:
+        rep.ok("W4", "reduce:sign")
+    else:
+        rep.violation("W4", "reduce:sign", where,
+                      "sign handling must be: negative = (x < 0); number = negative ? -x : x; ...; if (negative) foam = SIntNegate(foam) "
+                      "(negative-defined=%s magnitude=%s negate-applied=%s)" % (neg_def, num_def, neg_apply))
+
+
 WALKERS = ["foamEqual", "foamHash", "foamCopy", "foamFree", "foamToSExpr", "foamFrSExpr", "foamAuditAll", "foamCopyNode"]
 
 
@@ -789,6 +887,7 @@ def run(tier, only=None):
     f_lib_all = common.extract("lib.c", all_trees=True)
     w3(rep, f_lib_all)
     w4(rep, f_foam, f_lib)
+    w4b(rep, f_foam)
     w5(rep, f_foam, alphabet)
     f_sefo = common.extract("sefo.c", all_trees=True)
     w6(rep, f_sefo, widths)
